@@ -184,10 +184,10 @@ def oracle(c, stats):
         if ang:
             r1 = ((r1 + 200) % 400 - 200) * 1e4
             r2 = ((r2 + 200) % 400 - 200) * 1e4
-            tol = 2e-2
+            tol = 5e-2
         else:
             r1 *= 1e3; r2 *= 1e3
-            tol = 2e-3
+            tol = 5e-3
         stats.ratio("residual", abs(r1 - r2) / tol)
         if abs(r1 - r2) > tol:
             fails.append("pair.residual: %s %s->%s residual %.6g vs %.6g" % (o1["tag"], o1.get("from", o1.get("id")), o1.get("to", ""), r1, r2))
@@ -210,13 +210,13 @@ def oracle(c, stats):
         if "x" in c1[a] and "x" in c1[b] and "x" in c2[a] and "x" in c2[b]:
             d1 = math.hypot(c1[a]["x"] - c1[b]["x"], c1[a]["y"] - c1[b]["y"])
             d2 = math.hypot(c2[a]["x"] - c2[b]["x"], c2[a]["y"] - c2[b]["y"])
-            if abs(d1 - d2) > 2e-6:
+            if abs(d1 - d2) > 1e-5:
                 fails.append("pair.shape: distance %s-%s of the adjusted points %.7f vs %.7f" % (a, b, d1, d2))
                 break
         if "z" in c1[a] and "z" in c1[b] and "z" in c2[a] and "z" in c2[b]:
             h1 = c1[a]["z"] - c1[b]["z"]
             h2 = c2[a]["z"] - c2[b]["z"]
-            if abs(h1 - h2) > 2e-6:
+            if abs(h1 - h2) > 1e-5:
                 fails.append("pair.shape: height difference %s-%s %.7f vs %.7f" % (a, b, h1, h2))
                 break
     return fails
